@@ -50,6 +50,7 @@ type c10state struct {
 	refused  map[string]int
 	unlocked bool // the liquidity administrator unlocked all stake entries
 	// sporkSpent: the spork key moved (Fund) or burnt (BurnZnn) this token out of the liquidity contract in this history
+	depUnknown map[string]bool
 	sporkSpent map[types.ZenonTokenStandard]bool
 	waived     map[types.ZenonTokenStandard]bool // known finding hit: that token's liquidity backing is broken for good in this case
 }
@@ -87,7 +88,21 @@ func (s *c10state) stateAfter(ct types.Address, r *nom.AccountBlock) db.DB {
 	if st := s.h.A.Chain.GetAccountStore(ct, r.Identifier()); st != nil {
 		return st.Storage()
 	}
-	return s.h.A.Chain.GetFrontierAccountStore(ct).Storage()
+	return nil
+}
+
+// depositAfterRegistration: the registrant's deposit as the contract records it right after receive r; when that state is
+// no longer served (the receive is confirmed and later receives are already there) the record is marked unknown: the next
+// withdrawal of that account is then checked for shape and recipient only, and the record starts again from zero.
+func (s *c10state) depositAfterRegistration(ct types.Address, r *nom.AccountBlock, k string, who types.Address) {
+	if st := s.stateAfter(ct, r); st != nil {
+		if dep, err := definition.GetQsrDeposit(st, &who); err == nil {
+			s.deposits[k] = new(big.Int).Set(dep.Qsr)
+			return
+		}
+	}
+	s.depUnknown[k] = true
+	s.c.Class("deposit-record-unknown-after-a-registration")
 }
 
 func windowOpen(now, reg, lock, revoke int64) bool {
@@ -271,6 +286,16 @@ func (s *c10state) process(ct types.Address, r, snd *nom.AccountBlock, merr erro
 			return
 		}
 		dep := s.deposits[k]
+		if s.depUnknown[k] {
+			// see depositAfterRegistration: shape and recipient only
+			if len(outs) != 1 || outs[0].ToAddress != snd.Address || outs[0].TokenStandard != types.QsrTokenStandard {
+				c.Failf("C10/deposit-withdrawal", "%s: paid out %s", what, describeOuts(outs))
+			}
+			s.depUnknown[k] = false
+			s.deposits[k] = new(big.Int)
+			s.releases++
+			return
+		}
 		if dep == nil || dep.Sign() == 0 || len(outs) != 1 || outs[0].ToAddress != snd.Address || outs[0].Amount.Cmp(dep) != 0 || outs[0].TokenStandard != types.QsrTokenStandard {
 			c.Failf("C10/deposit-withdrawal", "%s: deposit on record %v, paid out %s", what, dep, describeOuts(outs))
 		}
@@ -291,11 +316,7 @@ func (s *c10state) process(ct types.Address, r, snd *nom.AccountBlock, merr erro
 			s.ents["pillar/"+p.Name] = &c10ent{kind: "pillar", name: p.Name, owner: snd.Address, token: types.ZnnTokenStandard,
 				amount: new(big.Int).Set(snd.Amount), regTime: now}
 			// registration consumes deposited QSR (burned): the deposit record follows the contract's
-			k := "pillar/" + snd.Address.String()
-			d := snd.Address
-			if dep, err := definition.GetQsrDeposit(s.stateAfter(ct, r), &d); err == nil {
-				s.deposits[k] = new(big.Int).Set(dep.Qsr)
-			}
+			s.depositAfterRegistration(ct, r, "pillar/"+snd.Address.String(), snd.Address)
 		}
 	case "pillar.Revoke":
 		var pname string
@@ -434,11 +455,7 @@ func (s *c10state) process(ct types.Address, r, snd *nom.AccountBlock, merr erro
 		if merr == nil {
 			s.ents["sentinel/"+snd.Address.String()] = &c10ent{kind: "sentinel", owner: snd.Address, token: types.ZnnTokenStandard,
 				amount: new(big.Int).Set(snd.Amount), amount2: new(big.Int).Set(constants.SentinelQsrDepositAmount), regTime: now}
-			k := "sentinel/" + snd.Address.String()
-			d := snd.Address
-			if dep, err := definition.GetQsrDeposit(s.stateAfter(ct, r), &d); err == nil {
-				s.deposits[k] = new(big.Int).Set(dep.Qsr)
-			}
+			s.depositAfterRegistration(ct, r, "sentinel/"+snd.Address.String(), snd.Address)
 		}
 	case "sentinel.Revoke":
 		e := s.ents["sentinel/"+snd.Address.String()]
@@ -526,7 +543,7 @@ func TestC10(t *testing.T) {
 			}
 		}
 		s := &c10state{c: c, h: h, ents: map[string]*c10ent{}, deposits: map[string]*big.Int{}, seen: map[types.Hash]bool{}, refused: map[string]int{},
-			sporkSpent: map[types.ZenonTokenStandard]bool{}, waived: map[types.ZenonTokenStandard]bool{}}
+			sporkSpent: map[types.ZenonTokenStandard]bool{}, waived: map[types.ZenonTokenStandard]bool{}, depUnknown: map[string]bool{}}
 		// genesis entitlements
 		for _, f := range spec.Fusions {
 			s.ents["fusion/"+f.Owner.String()+"/"+f.Id.String()] = &c10ent{kind: "fusion", id: f.Id, owner: f.Owner, token: types.QsrTokenStandard,
